@@ -568,6 +568,30 @@ func (g *gen) stepRandom() {
 	if focus == "handshake" && g.r.Chance(3, 5) && g.stepHandshake() {
 		return
 	}
+	if focus == "restart" && g.nsteps > 8 && g.r.Chance(1, 14) {
+		// graceful restart: drop every connection first, restart, connect again and look at what came back
+		for _, c := range append([]int{}, g.conns...) {
+			g.do(fmt.Sprintf("DROP %d", c))
+			g.dropConn(c)
+		}
+		g.do("RESTART")
+		g.outstanding = map[[2]int][]int{}
+		g.pendClose, g.pendConn = nil, nil
+		g.openConn()
+		// probe: every queue name, passively, then drain two of them; publish through every exchange
+		if len(g.conns) > 0 && len(g.chans[g.conns[0]]) > 0 {
+			c0, h0 := g.conns[0], g.chans[g.conns[0]][0]
+			for _, qn := range qnames {
+				g.do(fmt.Sprintf("QD %d %d %s 0 0 0 1 0", c0, h0, qn))
+				if len(g.pendClose) > 0 {
+					g.pendClose = nil
+					g.do(fmt.Sprintf("CHCLOSEOK %d %d", c0, h0))
+					g.do(fmt.Sprintf("CH %d %d", c0, h0))
+				}
+			}
+		}
+		return
+	}
 	if focus == "exclusive" && len(g.conns) < 2 && len(g.conns) > 0 && g.r.Chance(1, 2) {
 		g.openConn()
 		return
@@ -599,6 +623,10 @@ func (g *gen) stepRandom() {
 			g.do(fmt.Sprintf("HB %d %d", c, hh))
 		}
 		return
+	}
+	if focus == "restart" && g.r.Chance(3, 5) {
+		// durable and transient queues and exchanges, bindings, persistent and transient publishes, deletes, purges
+		k = []int{10, 10, 100, 100, 130, 130, 180, 200, 200, 200, 200, 600, 700, 890, 920}[g.r.Intn(15)]
 	}
 	if focus == "exclusive" && g.r.Chance(3, 5) {
 		// everything that names a queue: declare (also passive), bind, unbind, purge, delete, consume, get, publish
@@ -661,14 +689,22 @@ func (g *gen) stepRandom() {
 			excl = g.b(1, 2)
 			pas = g.b(1, 5)
 		}
-		g.do(fmt.Sprintf("QD %d %d %s %s %s %s %s %s", c, h, name, g.b(1, 3), excl, g.b(1, 7), pas, g.b(1, 12)))
+		dur := g.b(1, 3)
+		if focus == "restart" {
+			dur = g.b(1, 2)
+		}
+		g.do(fmt.Sprintf("QD %d %d %s %s %s %s %s %s", c, h, name, dur, excl, g.b(1, 7), pas, g.b(1, 12)))
 	case k < 120: // exchange.declare
 		ty := []string{"direct", "fanout", "topic", "headers", "direct", "fanout", "topic", "direct", "fanout", "topic", "bogus"}[g.r.Intn(11)]
 		name := g.pick(xnames)
 		if g.r.Chance(1, 25) {
 			name = "amq.x"
 		}
-		g.do(fmt.Sprintf("XD %d %d %s %s %s %s %s %s %s", c, h, name, ty, g.b(1, 3), g.b(1, 8), g.b(1, 8), g.b(1, 8), g.b(1, 10)))
+		xdur := g.b(1, 3)
+		if focus == "restart" {
+			xdur = g.b(1, 2)
+		}
+		g.do(fmt.Sprintf("XD %d %d %s %s %s %s %s %s %s", c, h, name, ty, xdur, g.b(1, 8), g.b(1, 8), g.b(1, 8), g.b(1, 10)))
 	case k < 175: // bind
 		q := g.existingQueue(sn)
 		x := g.existingExchange(sn, g.r.Chance(1, 10))
@@ -697,7 +733,11 @@ func (g *gen) stepRandom() {
 		if g.r.Chance(1, 12) {
 			lens = fmt.Sprintf("%d+%d", 1+g.r.Intn(5), 1+g.r.Intn(5))
 		}
-		g.do(fmt.Sprintf("PUB %d %d %s %s %s %s %s %d %s", c, h, ex, key, g.b(1, 3), g.b(1, 40), g.b(1, 3), g.uid, lens))
+		pers := g.b(1, 3)
+		if focus == "restart" {
+			pers = g.b(1, 2)
+		}
+		g.do(fmt.Sprintf("PUB %d %d %s %s %s %s %s %d %s", c, h, ex, key, g.b(1, 3), g.b(1, 40), pers, g.uid, lens))
 	case k < 560: // consume
 		q := g.existingQueue(sn)
 		if g.kind == "exact" {
@@ -917,6 +957,11 @@ func genSession(seed uint64, idx int, steps int, kind string, work string, settl
 	}
 	if focus == "exclusive" {
 		qnames = []string{"a", "a.b", "a.b.c", "ab", "a_b"}
+	}
+	if focus == "restart" {
+		// the buntdb wrapper cannot reload messages at all (finding F23): restart sessions run on badger
+		cfg.Engine = "badger"
+		cfg.Dir = filepath.Join(work, fmt.Sprintf("badger-%d-%d-%d", os.Getpid(), seed, idx))
 	}
 	enc := json.NewEncoder(os.Stdout)
 	id := fmt.Sprintf("%s-%d-%d", kind, seed, idx)
